@@ -610,13 +610,12 @@ Qed.
 
 (* the first column as the list comprehension of vlookup computes it *)
 Lemma genexp_first_col w rows : rect w rows -> 1 <= w ->
-  genexp (fun v_row => lift2 py_getitem (Ok v_row) (Ok (VInt 0))) (fun _ => Ok true) rows
+  genexp (fun v_row => py_getitem v_row (VInt 0)) (fun _ => Ok true) rows
   = Ok (col_of 0 rows).
 Proof.
   intros Hr Hw. induction rows as [|row rows IH]; [reflexivity|].
   inversion Hr as [|? ? (cells & -> & Hc) Hr']; subst.
-  cbn [genexp bind]. rewrite (IH Hr'). unfold lift2. cbn [bind].
-  rewrite getitem_nth by lia. reflexivity.
+  cbn [genexp bind]. rewrite (IH Hr'). rewrite getitem_nth by lia. reflexivity.
 Qed.
 
 Definition is_int (m : pyval) : bool := match m with VInt _ => true | _ => false end.
@@ -652,4 +651,128 @@ Proof.
   replace (k <=? 0) with false by (symmetry; apply Z.leb_gt; lia). py_run.
   fold (zlen rows).
   replace (zlen rows <? k) with true by (symmetry; apply Z.ltb_lt; lia). reflexivity.
+Qed.
+
+Lemma match_list_tuple v l mt : match_ v (VList l) mt = match_ v (VTuple l) mt.
+Proof. reflexivity. Qed.
+
+Lemma col_of_length j rows : length (col_of j rows) = length rows.
+Proof. unfold col_of. apply map_length. Qed.
+
+(* VLOOKUP(v, t, k, r) = INDEX(t, MATCH(v, first column, r ? 1 : 0), k):
+   the error MATCH returns, or the cell INDEX returns at the position found *)
+Lemma rect_head w rows : rect w rows -> rows <> [] ->
+  exists c0 rest, rows = VTuple c0 :: rest /\ zlen c0 = w.
+Proof.
+  intros Hr Hne. destruct rows as [|r0 rest]; [congruence|].
+  inversion Hr as [|? ? (c0 & -> & Hw0) _]; subst. eauto.
+Qed.
+
+Theorem vlookup_is_index_match v w rows k r :
+  rect w rows -> rows <> [] -> 1 <= k <= w ->
+  lookup.f_vlookup v (VTuple rows) (VInt k) r
+  = (m <- match_ v (VTuple (col_of 0 rows)) (VBool (py_truthy r)) ;;
+     if is_int m then index_ (VTuple rows) m (VInt k) else Ok m).
+Proof.
+  intros Hr Hne Hk. destruct (rect_head w rows Hr Hne) as (c0 & rest & E & Hw0).
+  unfold lookup.f_vlookup. py_run. rewrite list_like_tuple. py_run.
+  replace (k <=? 0) with false by (symmetry; apply Z.leb_gt; lia). py_run.
+  rewrite E at 1. py_run. fold (zlen c0). rewrite Hw0.
+  replace (w <? k) with false by (symmetry; apply Z.ltb_ge; lia). py_run.
+  rewrite (genexp_first_col w rows Hr) by lia. py_run.
+  rewrite match_list_tuple.
+  destruct (match_ v (VTuple (col_of 0 rows)) (VBool (py_truthy r))) as [m|e] eqn:Em;
+    cbn [bind]; [|reflexivity].
+  destruct (match_range v (VTuple (col_of 0 rows)) _ (col_of 0 rows) m eq_refl Em) as [->|(i & -> & Hi)].
+  - reflexivity.
+  - cbn [py_isinstance existsb has_ty orb is_int]. unfold zlen in Hi. rewrite col_of_length in Hi.
+    rewrite (index_cell w rows i k Hr) by (unfold zlen; lia).
+    unfold array_data, lift2, py_sub, Py.arith. cbn [as_num bind]. reflexivity.
+Qed.
+
+Theorem hlookup_is_index_match v w rows k r :
+  rect w rows -> 1 <= w -> 1 <= k <= zlen rows ->
+  lookup.f_hlookup v (VTuple rows) (VInt k) r
+  = (m <- match_ v (nth 0 rows VNone) (VBool (py_truthy r)) ;;
+     if is_int m then index_ (VTuple rows) (VInt k) m else Ok m).
+Proof.
+  intros Hr Hw Hk.
+  assert (Hne : rows <> []) by (intros ->; unfold zlen in Hk; cbn in Hk; lia).
+  destruct (rect_head w rows Hr Hne) as (c0 & rest & E & Hw0).
+  unfold lookup.f_hlookup. py_run. rewrite list_like_tuple. py_run.
+  replace (k <=? 0) with false by (symmetry; apply Z.leb_gt; lia). py_run.
+  fold (zlen rows).
+  replace (zlen rows <? k) with false by (symmetry; apply Z.ltb_ge; lia). py_run.
+  rewrite E at 1. py_run. rewrite E at 1. cbn [nth].
+  destruct (match_ v (VTuple c0) (VBool (py_truthy r))) as [m|e] eqn:Em;
+    cbn [bind]; [|reflexivity].
+  destruct (match_range v (VTuple c0) _ c0 m eq_refl Em) as [->|(i & -> & Hi)].
+  - reflexivity.
+  - cbn [py_isinstance existsb has_ty orb is_int].
+    rewrite (index_cell w rows k i Hr) by lia.
+    unfold array_data, lift2, py_sub, Py.arith. cbn [as_num bind]. reflexivity.
+Qed.
+
+(* ------------------------------------------------------------- transposition *)
+Lemma map_nth' {A B} (f : A -> B) l n dA dB : (n < length l)%nat ->
+  nth n (map f l) dB = f (nth n l dA).
+Proof.
+  intros H. rewrite (nth_indep _ dB (f dA)) by (rewrite map_length; exact H). apply map_nth.
+Qed.
+
+Lemma transpose_length w rows : length (transpose w rows) = w.
+Proof. unfold transpose. rewrite map_length. apply seq_length. Qed.
+
+Lemma transpose_nth w rows j : (j < w)%nat ->
+  nth j (transpose w rows) VNone = VTuple (col_of j rows).
+Proof.
+  intros H. unfold transpose. rewrite (map_nth' _ _ _ 0%nat) by (rewrite seq_length; exact H).
+  rewrite seq_nth by exact H. reflexivity.
+Qed.
+
+Lemma transpose_rect w rows : rect (zlen rows) (transpose w rows).
+Proof.
+  unfold rect, transpose. apply Forall_forall. intros row Hin.
+  apply in_map_iff in Hin. destruct Hin as (j & <- & _).
+  exists (col_of j rows). split; [reflexivity|]. unfold zlen. rewrite col_of_length. reflexivity.
+Qed.
+
+Lemma transpose_cell w rows i k : (i < length rows)%nat -> (k < w)%nat ->
+  nth i (cells_of (nth k (transpose w rows) VNone)) VNone
+  = nth k (cells_of (nth i rows VNone)) VNone.
+Proof.
+  intros Hi Hk. rewrite transpose_nth by exact Hk. cbn [cells_of]. unfold col_of.
+  rewrite (map_nth' _ _ _ VNone) by exact Hi. reflexivity.
+Qed.
+
+(* VLOOKUP on a table = HLOOKUP on its transpose: every rectangular table,
+   every lookup value, every index (in range or not), every range_lookup *)
+Theorem vlookup_transpose v w rows k r :
+  rect w rows -> rows <> [] -> 1 <= w ->
+  lookup.f_vlookup v (VTuple rows) (VInt k) r
+  = lookup.f_hlookup v (VTuple (transpose (Z.to_nat w) rows)) (VInt k) r.
+Proof.
+  intros Hr Hne Hw.
+  assert (HT : zlen (transpose (Z.to_nat w) rows) = w)
+    by (unfold zlen; rewrite transpose_length; lia).
+  destruct (Z.leb_spec k 0) as [Hk0|Hk0].
+  { rewrite vlookup_low, hlookup_low by exact Hk0. reflexivity. }
+  destruct (Z.ltb_spec w k) as [Hkw|Hkw].
+  { destruct (rect_head w rows Hr Hne) as (c0 & rest & -> & Hw0).
+    rewrite vlookup_high by lia. rewrite hlookup_high by lia. reflexivity. }
+  rewrite (vlookup_is_index_match v w rows k r Hr Hne) by lia.
+  rewrite (hlookup_is_index_match v (zlen rows) _ k r (transpose_rect _ rows)).
+  2:{ destruct rows; [congruence|]. unfold zlen. cbn [length]. lia. }
+  2:{ lia. }
+  rewrite transpose_nth by lia.
+  destruct (match_ v (VTuple (col_of 0 rows)) (VBool (py_truthy r))) as [m|e] eqn:Em;
+    cbn [bind]; [|reflexivity].
+  destruct (match_range v (VTuple (col_of 0 rows)) _ (col_of 0 rows) m eq_refl Em)
+    as [->|(i & -> & Hi)]; [reflexivity|].
+  cbn [is_int]. unfold zlen in Hi. rewrite col_of_length in Hi.
+  rewrite (index_cell w rows i k Hr) by (unfold zlen; lia).
+  rewrite (index_cell (zlen rows) _ k i (transpose_rect _ rows)) by (unfold zlen in *; lia).
+  rewrite (array_data_cell w rows i k Hr) by (unfold zlen; lia).
+  rewrite (array_data_cell (zlen rows) _ k i (transpose_rect _ rows)) by (unfold zlen in *; lia).
+  f_equal. symmetry. apply transpose_cell; lia.
 Qed.
